@@ -104,6 +104,237 @@ theorem is_null_def (tys : List Ty) (row : Row) (e : Expr) (v : Value) (h : eval
   simp [h, bne]
 
 
+/-! ## CASE -/
+
+/-- searched CASE: a WHEN whose condition is TRUE decides — its result is the value, whatever the later arms and the
+    ELSE are (they are not evaluated: `CASE WHEN b = 0 THEN 0 ELSE a / b END` never divides by zero) -/
+theorem case_when_true (tys : List Ty) (row : Row) (c r : Expr) (rest : List Expr)
+    (h : eval .none tys row c = .ok (.bool true)) :
+    eval .none tys row (.caseWhen (c :: r :: rest)) = eval .none tys row r := by
+  simp only [eval, evalCaseWhen, Defects.none] at h ⊢
+  simp [h, asTV]
+
+/-- … a WHEN whose condition is FALSE or unknown is skipped -/
+theorem case_when_not_true (tys : List Ty) (row : Row) (c r : Expr) (rest : List Expr) (v : Value)
+    (h : eval .none tys row c = .ok v) (hv : v = .bool false ∨ v = .null) :
+    eval .none tys row (.caseWhen (c :: r :: rest)) = eval .none tys row (.caseWhen rest) := by
+  simp only [eval, evalCaseWhen, Defects.none] at h ⊢
+  rcases hv with rfl | rfl <;> simp [h, asTV]
+
+/-- … and when no WHEN is left the value is the ELSE expression, NULL without ELSE -/
+theorem case_else (tys : List Ty) (row : Row) (e : Expr) :
+    eval .none tys row (.caseWhen [e]) = eval .none tys row e ∧
+    eval .none tys row (.caseWhen []) = .ok .null ∧
+    eval .none tys row (.caseWhen [.lit .null]) = .ok .null := by
+  simp [eval, evalCaseWhen]
+
+/-- the searched form of a simple CASE: every WHEN value `v` becomes the condition `x = v` -/
+def simpleToSearched (x : Expr) : List Expr → List Expr
+  | c :: r :: rest => .cmp .eq x c :: r :: simpleToSearched x rest
+  | l => l
+
+/-- simple CASE `CASE x WHEN v THEN r …` is an abbreviation of `CASE WHEN x = v THEN r …`
+    (so a NULL operand or a NULL WHEN value never matches) -/
+theorem case_simple_def (tys : List Ty) (row : Row) (x : Expr) (xv : Value)
+    (hx : eval .none tys row x = .ok xv) (parts : List Expr) :
+    eval .none tys row (.caseOf x parts) = eval .none tys row (.caseWhen (simpleToSearched x parts)) := by
+  have key : ∀ ps : List Expr, evalCaseOf {} tys row xv ps = evalCaseWhen {} tys row (simpleToSearched x ps) := by
+    intro ps
+    fun_induction simpleToSearched x ps with
+    | case1 c r rest ih =>
+      simp only [evalCaseOf, simpleToSearched, evalCaseWhen, eval]
+      simp only [Defects.none] at hx
+      rw [hx]
+      cases hc : eval {} tys row c with
+      | error e => rfl
+      | ok w =>
+        simp only [asTV_toValue]
+        rcases hcmp : cmp3 .eq xv w with _ | _ | _ <;> simp [ih]
+    | case2 l hl =>
+      cases l with
+      | nil => simp [simpleToSearched, evalCaseOf, evalCaseWhen]
+      | cons a l' =>
+        cases l' with
+        | nil => simp [simpleToSearched, evalCaseOf, evalCaseWhen]
+        | cons b l'' => exact absurd rfl (hl a b l'')
+  simp only [eval, Defects.none] at hx ⊢
+  rw [hx]
+  exact key parts
+
+/-! ## String functions (texts are byte strings; letters are the ASCII letters) -/
+
+/-- a string function of NULL is NULL, of a text its defining value; of anything else a type error -/
+theorem strfn_def (tys : List Ty) (row : Row) (f : StrFn) (e : Expr) (v : Value)
+    (h : eval .none tys row e = .ok v) :
+    eval .none tys row (.strFn f e) =
+      match v with
+      | .null => .ok .null
+      | .text s => .ok (applyStrFn f s)
+      | _ => .error .type := by
+  simp only [eval, h]
+  cases v <;> rfl
+
+/-- `a || b` is the concatenation; NULL if either side is NULL -/
+theorem concat_def (tys : List Ty) (row : Row) (a b : Expr) (x y : List Nat) :
+    (eval .none tys row a = .ok (.text x) → eval .none tys row b = .ok (.text y) →
+      eval .none tys row (.concat a b) = .ok (.text (x ++ y))) ∧
+    (eval .none tys row a = .ok .null → eval .none tys row b = .ok (.text y) →
+      eval .none tys row (.concat a b) = .ok .null) ∧
+    (eval .none tys row a = .ok (.text x) → eval .none tys row b = .ok .null →
+      eval .none tys row (.concat a b) = .ok .null) := by
+  refine ⟨?_, ?_, ?_⟩ <;> intro ha hb <;> simp only [eval, ha, hb] <;> rfl
+
+theorem upperByte_idem (b : Nat) : upperByte (upperByte b) = upperByte b := by
+  simp only [upperByte, Bool.and_eq_true, decide_eq_true_eq]
+  split
+  · rename_i h
+    split
+    · omega
+    · rfl
+  · rfl
+
+theorem lowerByte_idem (b : Nat) : lowerByte (lowerByte b) = lowerByte b := by
+  simp only [lowerByte, Bool.and_eq_true, decide_eq_true_eq]
+  split
+  · rename_i h
+    split
+    · omega
+    · rfl
+  · rfl
+
+theorem upper_lower_byte (b : Nat) : upperByte (lowerByte b) = upperByte b ∧ lowerByte (upperByte b) = lowerByte b := by
+  simp only [upperByte, lowerByte, Bool.and_eq_true, decide_eq_true_eq]
+  constructor
+  · by_cases h1 : 65 ≤ b ∧ b ≤ 90
+    · have h2 : 97 ≤ b + 32 ∧ b + 32 ≤ 122 := by omega
+      have h3 : ¬ (97 ≤ b ∧ b ≤ 122) := by omega
+      simp [h1, h2, h3]
+    · simp [h1]
+  · by_cases h1 : 97 ≤ b ∧ b ≤ 122
+    · have h2 : 65 ≤ b - 32 ∧ b - 32 ≤ 90 := by omega
+      have h3 : ¬ (65 ≤ b ∧ b ≤ 90) := by omega
+      simp only [h1, h2, h3, and_self, if_true, if_false]
+      omega
+    · simp [h1]
+
+/-- UPPER and LOWER are idempotent, absorb each other, keep the number of bytes and change ASCII letters only -/
+theorem upper_lower_laws (s : List Nat) :
+    (s.map upperByte).map upperByte = s.map upperByte ∧
+    (s.map lowerByte).map lowerByte = s.map lowerByte ∧
+    (s.map lowerByte).map upperByte = s.map upperByte ∧
+    (s.map upperByte).map lowerByte = s.map lowerByte ∧
+    (s.map upperByte).length = s.length ∧ (s.map lowerByte).length = s.length ∧
+    (∀ b, ¬ (97 ≤ b ∧ b ≤ 122) → upperByte b = b) ∧ (∀ b, ¬ (65 ≤ b ∧ b ≤ 90) → lowerByte b = b) ∧
+    (∀ b, 97 ≤ b ∧ b ≤ 122 → upperByte b + 32 = b) ∧ (∀ b, 65 ≤ b ∧ b ≤ 90 → lowerByte b = b + 32) := by
+  refine ⟨?_, ?_, ?_, ?_, by simp, by simp, ?_, ?_, ?_, ?_⟩
+  · simp [List.map_map, Function.comp_def, upperByte_idem]
+  · simp [List.map_map, Function.comp_def, lowerByte_idem]
+  · simp [List.map_map, Function.comp_def, (upper_lower_byte _).1]
+  · simp [List.map_map, Function.comp_def, (upper_lower_byte _).2]
+  · intro b h; simp [upperByte, h]
+  · intro b h; simp [lowerByte, h]
+  · intro b h; simp only [upperByte, h, decide_true, Bool.and_self, if_true]; omega
+  · intro b h; simp [lowerByte, h]
+
+theorem isLead_upper (b : Nat) : (upperByte b < 128 || 192 ≤ upperByte b) = (b < 128 || 192 ≤ b) := by
+  simp only [upperByte, Bool.and_eq_true, decide_eq_true_eq]
+  split
+  · rename_i h
+    have h1 : b - 32 < 128 := by omega
+    have h2 : b < 128 := by omega
+    simp [h1, h2]
+  · rfl
+
+theorem isLead_lower (b : Nat) : (lowerByte b < 128 || 192 ≤ lowerByte b) = (b < 128 || 192 ≤ b) := by
+  simp only [lowerByte, Bool.and_eq_true, decide_eq_true_eq]
+  split
+  · rename_i h
+    have h1 : b + 32 < 128 := by omega
+    have h2 : b < 128 := by omega
+    simp [h1, h2]
+  · rfl
+
+/-- LENGTH counts characters: additive over `||`, unchanged by UPPER / LOWER, the number of bytes of an ASCII text -/
+theorem length_laws (a b : List Nat) :
+    charCount (a ++ b) = charCount a + charCount b ∧
+    charCount (a.map upperByte) = charCount a ∧ charCount (a.map lowerByte) = charCount a ∧
+    ((∀ x ∈ a, x < 128) → charCount a = a.length) := by
+  refine ⟨by simp [charCount], ?_, ?_, ?_⟩
+  · simp only [charCount, List.filter_map, List.length_map]
+    congr 1
+    apply List.filter_congr
+    intro x _
+    simp only [Function.comp]
+    exact isLead_upper x
+  · simp only [charCount, List.filter_map, List.length_map]
+    congr 1
+    apply List.filter_congr
+    intro x _
+    simp only [Function.comp]
+    exact isLead_lower x
+  · intro h
+    simp only [charCount]
+    rw [List.filter_eq_self.mpr]
+    intro x hx
+    simp [h x hx]
+
+/-- LTRIM removes exactly the leading spaces, RTRIM exactly the trailing ones -/
+theorem trim_def (s : List Nat) :
+    (∃ n, s = List.replicate n 32 ++ ltrimBytes s) ∧ (ltrimBytes s).head? ≠ some 32 ∧
+    (∃ n, s = rtrimBytes s ++ List.replicate n 32) ∧ (rtrimBytes s).getLast? ≠ some 32 := by
+  have hl : ∀ t : List Nat, (∃ n, t = List.replicate n 32 ++ ltrimBytes t) ∧ (ltrimBytes t).head? ≠ some 32 := by
+    intro t
+    induction t with
+    | nil => exact ⟨⟨0, rfl⟩, by simp [ltrimBytes]⟩
+    | cons x xs ih =>
+      by_cases hx : x = 32
+      · subst hx
+        obtain ⟨⟨n, hn⟩, h2⟩ := ih
+        refine ⟨⟨n + 1, ?_⟩, ?_⟩
+        · simp only [ltrimBytes, List.dropWhile_cons, beq_self_eq_true, if_true, List.replicate_succ, List.cons_append]
+          congr 1
+        · simpa [ltrimBytes] using h2
+      · refine ⟨⟨0, ?_⟩, ?_⟩
+        · simp [ltrimBytes, hx]
+        · simp [ltrimBytes, hx]
+  refine ⟨(hl s).1, (hl s).2, ?_, ?_⟩
+  · obtain ⟨n, hn⟩ := (hl s.reverse).1
+    refine ⟨n, ?_⟩
+    have := congrArg List.reverse hn
+    simpa [rtrimBytes] using this
+  · have := (hl s.reverse).2
+    simpa [rtrimBytes, List.getLast?_reverse] using this
+
+/-- trimming twice is trimming once; `||` is associative with the empty text as unit -/
+theorem trim_concat_laws (s t u : List Nat) :
+    ltrimBytes (ltrimBytes s) = ltrimBytes s ∧ rtrimBytes (rtrimBytes s) = rtrimBytes s ∧
+    concatV (.text s) (.text []) = .ok (.text s) ∧
+    (concatV (.text s) (.text t)).bind (concatV · (.text u)) = (concatV (.text t) (.text u)).bind (concatV (.text s) ·) := by
+  have hl : ∀ t : List Nat, ltrimBytes (ltrimBytes t) = ltrimBytes t := by
+    intro t
+    induction t with
+    | nil => rfl
+    | cons x xs ih =>
+      by_cases hx : x = 32
+      · subst hx; simpa [ltrimBytes] using ih
+      · simp [ltrimBytes, hx]
+  refine ⟨hl s, ?_, by simp [concatV], ?_⟩
+  · simp [rtrimBytes, hl]
+  · simp [concatV, Except.bind, List.append_assoc]
+
+/-! ## DOUBLE values (compare-only: no floating-point operation is modelled) -/
+
+/-- DOUBLE values are compared through their order keys, are NULL-strict like every comparison, pass unchanged into a
+    DOUBLE column and into no other, and take no part in arithmetic -/
+theorem double_compare_only (op : CmpOp) (a b : Int) (ty : Ty) (aop : ArithOp) (v : Value) (hv : v ≠ .null) :
+    cmp3 op (.dbl a) (.dbl b) = some (op.holds (cmpInt a b)) ∧
+    cmp3 op (.dbl a) .null = none ∧
+    (castTo ty (.dbl a) = if ty = .double then .ok (.dbl a) else .error .type) ∧
+    arith .none aop (.dbl a) v = .error .type := by
+  refine ⟨rfl, rfl, ?_, ?_⟩
+  · cases ty <;> rfl
+  · cases v <;> first | exact absurd rfl hv | rfl
+
 /-! ## Aggregates -/
 
 /-- COUNT(expr) counts the non-NULL values only; COUNT(*) counts rows -/
@@ -129,10 +360,11 @@ theorem aggregates_of_nothing (vs : List Value) (h : ∀ v ∈ vs, v = .null) :
     exact hn (h v hv)
   simp [aggregate, this, minVal, maxVal]
 
-/-- SUM is the sum and AVG the quotient sum / count of the non-NULL values (when no overflow is reported) -/
+/-- SUM is the sum and AVG the quotient sum / count (a rational in lowest terms) of the non-NULL values
+    (when no overflow is reported) -/
 theorem sum_avg_def (is : List Int) (hne : is ≠ []) (v : Value) :
     (aggregate .none .sum (is.map .int) = .ok v → v = .int is.sum) ∧
-    (aggregate .none .avg (is.map .int) = .ok v → v = .rat is.sum is.length) := by
+    (aggregate .none .avg (is.map .int) = .ok v → v = ratNorm is.sum is.length) := by
   have hnn : nonNull (is.map .int) = is.map .int := by
     simp only [nonNull, List.filter_eq_self, List.mem_map, bne_iff_ne, ne_eq]
     rintro _ ⟨i, _, rfl⟩; simp
@@ -209,6 +441,82 @@ theorem where_keeps_only_true (tys : List Ty) (w : Expr) (rows out : List Row)
 
 /-- without WHERE all rows are kept -/
 theorem where_absent (tys : List Ty) (rows : List Row) : applyWhere .none tys none rows = .ok rows := rfl
+
+/-! ## Aggregate queries: DISTINCT aggregates, HAVING -/
+
+/-- AGG(DISTINCT expr) sees every distinct non-NULL value exactly once: its input has no duplicates, no NULL, and
+    the same members as the non-NULL argument values; so COUNT(DISTINCT expr) is the number of distinct non-NULL values -/
+theorem distinct_aggregate_input (a : Agg) (hd : a.distinct = true) (hf : a.fn ≠ .countStar) (vs : List Value) :
+    (aggInput a vs).Nodup ∧ (∀ v, v ∈ aggInput a vs ↔ (v ∈ vs ∧ v ≠ .null)) ∧
+    aggregate .none .count (aggInput a vs) = .ok (.int (aggInput a vs).length) := by
+  have hin : aggInput a vs = dedupV (nonNull vs) := by
+    simp only [aggInput, hd, Bool.true_and]
+    have : (a.fn != AggFn.countStar) = true := by simpa using hf
+    simp [this]
+  have hmem : ∀ (l : List Value) (v : Value), v ∈ dedupV l ↔ v ∈ l := by
+    intro l
+    induction l with
+    | nil => simp [dedupV]
+    | cons x xs ih =>
+      intro v
+      simp only [dedupV, List.mem_cons, List.mem_filter, ih, bne_iff_ne, ne_eq]
+      constructor
+      · rintro (h | ⟨h, _⟩)
+        · exact Or.inl h
+        · exact Or.inr h
+      · intro h
+        by_cases hx : v = x
+        · exact Or.inl hx
+        · rcases h with h | h
+          · exact absurd h hx
+          · exact Or.inr ⟨h, hx⟩
+  have hnd : ∀ l : List Value, (dedupV l).Nodup := by
+    intro l
+    induction l with
+    | nil => simp [dedupV]
+    | cons x xs ih =>
+      simp only [dedupV, List.nodup_cons, List.mem_filter, bne_iff_ne, ne_eq, not_and]
+      exact ⟨fun _ h => h trivial, ih.filter _⟩
+  rw [hin]
+  refine ⟨hnd _, fun v => by rw [hmem, nonNull_mem], ?_⟩
+  have hnn : nonNull (dedupV (nonNull vs)) = dedupV (nonNull vs) := by
+    simp only [nonNull, List.filter_eq_self, bne_iff_ne, ne_eq]
+    intro v hv
+    exact ((nonNull_mem vs v).mp ((hmem _ v).mp hv)).2
+  simp [aggregate, hnn]
+
+/-- an aggregate query: group, compute the aggregate row of every group (keys, then aggregates), keep the groups on
+    which HAVING is TRUE — not FALSE, not unknown —, project the select list over the aggregate row -/
+theorem aggregate_query_pipeline (tys : List Ty) (q : Select) (hq : q.isAgg = true) (rows out : List Row)
+    (h : produce .none tys q rows = .ok out) :
+    ∃ keyed arows, keyRows .none tys q.groupBy rows = .ok keyed ∧
+      mapE (aggRow .none tys q.groupBy q.aggs) (groupsOf q.groupBy.isEmpty keyed) = .ok arows ∧
+      projectAll .none (aggTys tys q.groupBy q.aggs) q.items
+        (match q.having with
+         | none => arows
+         | some hv => arows.filter (holds (aggTys tys q.groupBy q.aggs) hv)) = .ok out := by
+  simp only [produce, hq, Bool.not_true, Bool.false_eq_true, if_false] at h
+  cases hk : keyRows {} tys q.groupBy rows with
+  | error e => simp [hk] at h
+  | ok keyed =>
+    simp only [hk] at h
+    cases ha : mapE (aggRow {} tys q.groupBy q.aggs) (groupsOf q.groupBy.isEmpty keyed) with
+    | error e => simp [ha] at h
+    | ok arows =>
+      simp only [ha] at h
+      refine ⟨keyed, arows, rfl, ha, ?_⟩
+      cases hh : q.having with
+      | none => simpa [hh, applyWhere] using h
+      | some hv =>
+        simp only [hh] at h
+        cases hw : applyWhere {} (aggTys tys q.groupBy q.aggs) (some hv) arows with
+        | error e => simp [hw] at h
+        | ok kept =>
+          simp only [hw] at h
+          have hk := where_keeps_only_true _ hv arows kept hw
+          simp only
+          rw [← hk]
+          exact h
 
 /-! ## Joins (on a decided match relation `m`; `evalFrom` decides it by evaluating ON for every pair) -/
 
@@ -356,6 +664,9 @@ theorem update_touches_exactly (tys : List Ty) (w : Expr) (assign : Row → Exce
   exact this
 
 
+/-- a table with an INT and an INT column (used in examples) -/
+def wT' : TableDef := { tys := [.int, .int], rows := [[.int 1, .int 10]] }
+
 /-! ## The evaluator is built from these operators -/
 
 /-- the match relation decided by an ON condition (`none` = CROSS JOIN / no condition) -/
@@ -391,6 +702,42 @@ theorem from_join_is_joinPure (db : Db) (k : JoinKind) (l r : From) (on : Option
           have := isTrueOn_evalPred (l.tys db ++ r.tys db) c (a ++ b)
           simp only [isTrueOn, holds] at this
           exact this
+
+/-- the query a derived table `(SELECT items FROM f [WHERE w]) AS r` stands for -/
+def derivedQuery (f : From) (w : Option Expr) (items : List Expr) : Select :=
+  { distinct := false, from_ := f, where_ := w, groupBy := [], aggs := [], items := some items, orderBy := [],
+    limit := none, offset := none }
+
+/-- a derived table in FROM supplies exactly the rows its query returns (errors included), under the schema its
+    select list infers -/
+theorem derived_table_is_its_query (nullsFirst : Bool) (db : Db) (f : From) (w : Option Expr) (items : List Expr) :
+    evalFrom .none db (.derived f w items) = evalSelect .none nullsFirst db (derivedQuery f w items) ∧
+    (From.derived f w items).tys db = items.map (inferTy (f.tys db)) := by
+  refine ⟨?_, rfl⟩
+  simp only [evalFrom, evalSelect, derivedQuery, produce, Select.isAgg, projectAll, List.isEmpty_nil, Bool.not_true,
+    Bool.or_self, Bool.not_false, if_true, finish, limitOffset, Option.getD_none, List.drop_zero,
+    Bool.false_eq_true, if_false]
+  cases evalFrom {} db f with
+  | error e => rfl
+  | ok rows =>
+    simp only []
+    cases applyWhere {} (f.tys db) w rows with
+    | error e => rfl
+    | ok kept =>
+      simp only []
+      cases mapE (projectRow {} (f.tys db) items) kept <;> rfl
+
+/-- `SELECT * FROM (query) AS r` is the query -/
+theorem derived_star_transparent (nullsFirst : Bool) (db : Db) (f : From) (w : Option Expr) (items : List Expr) :
+    evalSelect .none nullsFirst db
+      { distinct := false, from_ := .derived f w items, where_ := none, groupBy := [], aggs := [], items := none,
+        orderBy := [], limit := none, offset := none } =
+    evalSelect .none nullsFirst db (derivedQuery f w items) := by
+  rw [← (derived_table_is_its_query nullsFirst db f w items).1]
+  simp only [evalSelect, applyWhere, produce, Select.isAgg, projectAll, List.isEmpty_nil, Bool.not_true,
+    Bool.or_self, Bool.not_false, if_true, finish, limitOffset, Option.getD_none, List.drop_zero,
+    Bool.false_eq_true, if_false]
+  cases evalFrom {} db (.derived f w items) <;> rfl
 
 /-- SELECT = FROM, then WHERE, then projection or grouping, then ORDER BY, DISTINCT, OFFSET/LIMIT -/
 theorem select_pipeline (nullsFirst : Bool) (db : Db) (q : Select) (out : List Row)
@@ -542,6 +889,19 @@ theorem exec_insert (nullsFirst : Bool) (db : Db) (t : Nat) (rows : List (List E
         have : db.getD t default = td := by simp [List.getD, ht]
         rw [this]
 
+/-- Static typing of comparisons: a statement that compares a number with a text or a boolean (in =, <, BETWEEN, IN,
+    simple CASE, anywhere in it) is rejected with a type error and changes nothing; every other statement runs as
+    `execStmt` says. -/
+theorem cross_category_comparison_rejected (nullsFirst : Bool) (db : Db) (s : Stmt) :
+    (stmtIllTyped db s = true → execStmtTyped .none nullsFirst db s = (db, .error .type)) ∧
+    (stmtIllTyped db s = false → execStmtTyped .none nullsFirst db s = execStmt .none nullsFirst db s) := by
+  constructor <;> intro h <;> simp [execStmtTyped, h]
+
+/-- e.g. `WHERE c1 = 'x'` on an INT column is ill-typed, `WHERE c1 = NULL` and `WHERE c1 = 1` are not -/
+example : stmtIllTyped [wT'] (.delete 0 (some (.cmp .eq (.col 1) (.lit (.text [120]))))) = true ∧
+    stmtIllTyped [wT'] (.delete 0 (some (.cmp .eq (.col 1) (.lit .null)))) = false ∧
+    stmtIllTyped [wT'] (.delete 0 (some (.cmp .eq (.col 1) (.lit (.int 1))))) = false := by decide
+
 /-! ## Witnesses: each defect flag breaks one of the laws above on a concrete input -/
 
 /-- the witness table: (1, 10), (2, NULL), (3, 30) -/
@@ -691,10 +1051,19 @@ theorem parse_printFull (e : PExpr) (h : ListsOk e = true) :
   change (match parseBp D (32 * (full e).length + 32) 0 (full e) with | some (e, []) => some e | _ => none) = some e
   rw [this]
 
-/-- What is *not* proved (only tested by engine `parse` on every run): the lexer turns the text of a token list
-    — tokens written as the SQL printer writes them, separated by blanks — back into that token list. -/
-def lex_render_statement (render : List Tok → List Nat) : Prop :=
-  ∀ ts : List Tok, lexAll (render ts) = some ts
+/-- **The lexer reads rendered tokens back**: for every list of printable tokens (numbers, strings with any bytes,
+    identifiers that start with a letter or `_`, continue with letters, digits, `_` and are not keywords, the keywords
+    and operators of the expression grammar) the text "tokens separated by single blanks" is lexed to that list. -/
+theorem lex_render_tokens (ts : List Tok) (h : ∀ t ∈ ts, PrintableTok t = true) : lexAll (render ts) = some ts :=
+  lex_render ts h
+
+/-- **Text → AST, end to end.** The minimal-parentheses *text* of every printable expression whose identifiers are
+    lexable is read back — by the lexer and the Pratt parser on the extracted binding-power table — as the same tree. -/
+theorem parse_text_roundtrip (e : PExpr) (hp : Printable e = true) (hi : IdentsOk e = true) :
+    (lexAll (render (printMin docTable e))).bind (parseExpr Generated.parseTable) = some e := by
+  have hl := lex_render (printMin docTable e) (body_printable e hi)
+  rw [hl]
+  exact parse_printMin e hp
 
 /-- instances of the minimal-parentheses statement on the classical traps (checked by evaluation) -/
 theorem parse_printMin_examples :
@@ -730,6 +1099,7 @@ theorem unaryBindsLooser_witness :
   refine ⟨rfl, rfl⟩
 
 /-- hypotheses are satisfiable -/
+example : IdentsOk (.bin .and (.un .not (.qident [116] [99, 49])) (.ident [95, 120])) = true := by decide
 example : ListsOk (.inList true (.ident [97]) [.num 1, .bin .plus (.num 2) (.ident [98])]) = true := by decide
 
 end ParserTheorems
